@@ -1,8 +1,41 @@
 //! Utility for UI XML generation.
 
 use super::XmlWriter;
+use quick_xml::escape;
 use quick_xml::events::{BytesStart, BytesText, Event};
+use std::borrow::Cow;
 use std::io;
+
+/// Escapes the given string so that it can be read back from XML text content as is.
+///
+/// In addition to the markup characters, CR is written as character reference since
+/// XML parser would otherwise translate it to LF.
+pub(super) fn escape_text(s: &str) -> Cow<'_, str> {
+    let escaped = escape::escape(s);
+    if escaped.contains('\r') {
+        Cow::Owned(escaped.replace('\r', "&#13;"))
+    } else {
+        escaped
+    }
+}
+
+/// Escapes the given string so that it can be read back from XML attribute value as is.
+///
+/// In addition to the markup characters, TAB, LF, and CR are written as character
+/// references since XML parser would otherwise normalize them to spaces.
+pub(super) fn escape_attribute_value(s: &str) -> Cow<'_, str> {
+    let escaped = escape::escape(s);
+    if escaped.contains(['\t', '\n', '\r']) {
+        Cow::Owned(
+            escaped
+                .replace('\t', "&#9;")
+                .replace('\n', "&#10;")
+                .replace('\r', "&#13;"),
+        )
+    } else {
+        escaped
+    }
+}
 
 pub(super) fn write_tagged_str<W, S, T>(
     writer: &mut XmlWriter<W>,
@@ -16,7 +49,9 @@ where
 {
     let tag = BytesStart::new(tag.as_ref());
     writer.write_event(Event::Start(tag.borrow()))?;
-    writer.write_event(Event::Text(BytesText::new(content.as_ref())))?;
+    writer.write_event(Event::Text(BytesText::from_escaped(escape_text(
+        content.as_ref(),
+    ))))?;
     writer.write_event(Event::End(tag.to_end()))?;
     Ok(())
 }
